@@ -214,7 +214,26 @@ inline std::string narrow(vf::Rng &r, uint64_t c) {
     };
     static const size_t L8[]  = {254, 255, 256, 257, 300, 511, 512};
     static const size_t L16[] = {65534, 65535, 65536, 65537, 70000};
-    switch (c % 10) {
+    switch (c % 12) {
+        case 10:
+        case 11: {
+            // 8..14 open tags, up to four of them loops over sets with several items, the rest <if>: the per-level loop
+            // records are created while enclosing loops are in the middle of their iteration
+            unsigned    depth = 8 + r.below(7), loops = 0;
+            std::string s, e;
+            for (unsigned i = 0; i < depth; ++i) {
+                bool lp = (i == 0) || (i + 1 == depth) || (loops < 4 && r.chance(1, 3));
+                if (lp && loops < 4) {
+                    ++loops;
+                    s += std::string("<loop set=\"") + (r.chance(1, 2) ? "arr2" : "recs") + "\" value=\"w" + std::to_string(i) + "\">";
+                    e = "</loop>" + e;
+                } else {
+                    s += "<if case=\"1\">";
+                    e = "</if>" + e;
+                }
+            }
+            return "[" + s + "{var:w0[0]}:{var:a};" + e + "]";
+        }
         case 0: return "{var:" + rep("n", L8[r.below(7)]) + "}";
         case 1: return "{raw:" + rep("list[0]", L8[r.below(7)]) + "}";
         case 2: return "<loop " + rep(" ", L8[r.below(7)]) + "set=\"list\" value=\"v\">{var:v}</loop>";
